@@ -125,7 +125,8 @@ class Prop(common.PropertyCheck):
                         return {'ok': False, 'detail': 'write_workbook wrote the sheets [T, Other] to a path where %s lay before; the workbook now holds the sheets %s' % (
                             ['an older workbook', 'an empty file', 'nothing'][case['seed'] % 3], names), 'ids': [None if pd.isnull(x) else x for x in written['ID']]}
             try:
-                back = FlowCal.excel_ui.read_table(path, 'T', index_col='ID')
+                # (every second case names the reading engine explicitly -- a documented parameter; same rules)
+                back = FlowCal.excel_ui.read_table(path, 'T', index_col='ID', **({'engine': 'openpyxl'} if case['seed'] % 2 else {}))
             except ValueError as e:
                 return {'read_err': 'ValueError', 'ids': [None if pd.isnull(x) else x for x in written['ID']]}
             exp = written[written['ID'].notnull()]
@@ -161,6 +162,9 @@ class Prop(common.PropertyCheck):
             # a row used for gating and event counts only: no units cell filled in
             # (its file is given by an absolute path)
             srows.append(excelgen.sample_row('S2', 'FC001', os.path.join(ex.dir, 'FCFiles', 's1.fcs'), {}, 'B1', gate_fraction=0.7, extra={'Strain': 'w', 'Dose': 3}))
+            # a sample file that does not record detector voltages ($PnV absent), converted to MEF with beads that do record theirs
+            ex.write_fcs('FCFiles/s3.fcs', 'FC001', n=650, seed=case['seed'] % 1000 + 4, voltage=None)
+            srows.append(excelgen.sample_row('S3', 'FC001', 'FCFiles/s3.fcs', {'FL1': 'MEF', 'FL3': 'RFI'}, 'B1', extra={'Strain': 't', 'Dose': 6}))
             if case.get('wide'):
                 ex.write_fcs('FCFiles/w0.fcs', 'FCW', n=650, seed=case['seed'] % 1000 + 8)
                 srows.append(excelgen.sample_row('W0', 'FCW', 'FCFiles/w0.fcs', {c: ['RFI', 'a.u.', 'Channel'][k % 3] for k, c in enumerate(ex.inst['FCW']['fl'])}, None,
